@@ -200,6 +200,7 @@ type Oblig struct {
 	Func    string
 	Script  string
 	Note    string
+	Before  *Oblig // cover:after-call: the matching cover taken just before the call
 }
 
 type VC struct {
